@@ -203,6 +203,127 @@ def section_case(fname):
     return vcs
 
   def replay(v, w, path, structural):
+    return section_replay(fname)
+
+  try:
+    explore_and_check(res, fn, build, replay=replay, negative=lambda p: build(p, wrong=True), vc_timeout_ms=60000, batch=False)
+  finally:
+    shims.uninstall()
+    mathshim.RAW_EXP = False
+  return res
+
+
+def replay_form(fname, variant, w, registry):
+  import math
+  ref = spec.make(math.exp, math.sqrt)
+  r = w.get("r")
+  if not (isinstance(r, float) and 0.05 < r < 50):
+    r = 1.7
+  if fname == "polynomial":
+    ps = [float(w.get("c%d" % i, 0.5 + i)) for i in range(variant + 1)]
+  else:
+    ps = []
+    for n in FORMS[fname][0]:
+      v = w.get(n)
+      ps.append(v if isinstance(v, float) and 1e-3 < abs(v) < 1e3 else 1.3)
+    if fname == "exponential" and variant is not None:
+      ps[1] = variant
+    if fname == "zbl":
+      ps = [abs(p) for p in ps]
+  # a second, fixed probe with a zero among the parameters (history-free special values)
+  probes = [ps, [0.0 if i == len(ps) // 2 else (1.1 + 0.3 * i) for i in range(len(ps))]]
+  if fname == "exponential" and variant is not None:
+    probes[1][1] = variant
+  if fname == "zbl":
+    probes = probes[:1]
+  bad = []
+  for pp in probes:
+    try:
+      want = ref[fname](r, *pp)
+      for route, g in route_values(fname, r, pp, registry).items():
+        if abs(g - want) > 1e-9 * max(1.0, abs(want)):
+          bad.append("%s route %s at r=%r params=%r gives %r, documented formula %r" % (fname, route, r, pp, g, want))
+    except (ZeroDivisionError, ValueError, OverflowError) as e:
+      continue
+  return (bool(bad), "; ".join(bad[:2]) or "all routes agree with the documented formula at the probes", dict(kind="form_formula", form=fname, r=r, params=ps))
+
+
+def zbl_doc_case():
+  """Observation (not a solver claim): value of the source's ZBL constants against the manual's printed ones."""
+  res = new_result("zbl manual constants (observation)")
+  import math
+  from atsim.potentials import potentialfunctions as pf
+  ref = spec.make(math.exp, math.sqrt)
+  worst = 0.0
+  for r in (0.2, 0.5, 1.0, 2.0):
+    a = pf.zbl(r, 92.0, 8.0)
+    b = ref["zbl"](r, 92.0, 8.0, C=spec.ZBL_DOC_C, B=spec.ZBL_DOC_B, a0=0.46850)
+    worst = max(worst, abs(a - b) / abs(b))
+  res["notes"].append("ZBL: source constants vs the manual's printed constants differ by up to %.2e relative (U-O, r in 0.2..2.0)" % worst)
+  res["paths"] = 1
+  res["samples"].append(dict(vc="zbl manual constants", relative_difference=worst))
+  return res
+
+
+def section_case(fname):
+  """What a potable section builds: several 'as.NAME p...' entries of one form in one model, built by one
+  real Potential_Form_Builder.  Every entry must evaluate the documented formula with ITS OWN parameters:
+  (i) symbolically, two entries with independent symbolic parameters; (ii) concretely for pairs of parameter
+  lists that differ in one value only, including values whose python hashes collide (-1 / -2)."""
+  import io
+  import math
+  from atsim.potentials.config import ConfigParser
+  from atsim.potentials.config._potential_form_registry import Potential_Form_Registry
+  from atsim.potentials.config._modifier_registry import Modifier_Registry
+  from atsim.potentials.config._pair_potential_builder import Pair_Potential_Builder
+  from checks import c09
+  res = new_result("section entries of as.%s" % fname)
+  names = FORMS[fname][0]
+  n = len(names)
+  if n == 0:
+    res["paths"] = 1
+    return res
+  t1 = [101.0 + i for i in range(n)]
+  t2 = [121.0 + i for i in range(n)]
+  text = "[Pair]\nA-A : as.%s %s\nB-B : as.%s %s\n" % (fname, " ".join(map(repr, t1)), fname, " ".join(map(repr, t2)))
+  cp = ConfigParser(io.StringIO(text))
+  shims.install()
+  if FORMS[fname][1] == "tolerant":
+    mathshim.RAW_EXP = True
+
+  def fn():
+    r = sym("r")
+    assume(r > 0)
+    P = sym_params(fname, "one_")
+    Q = sym_params(fname, "two_")
+    if fname == "exponential":
+      P[1], Q[1] = 2, 3
+    tab = dict(zip(t1, P))
+    tab.update(zip(t2, Q))
+    scp = c09._SubstParser(cp, tab)
+    pots = Pair_Potential_Builder(scp, Potential_Form_Registry(scp, True, True), Modifier_Registry()).potentials
+    ref = spec.make(mathshim.exp, mathshim.sqrt)
+    out = []
+    for pot, ps in zip(pots, (P, Q)):
+      out.append((term(pot.energy(r)), term(ref[fname](r, *ps))))
+    return out
+
+  def build(path, wrong=False):
+    if path.exc is not None:
+      raise Structural("exception", "%s: %s" % (type(path.exc).__name__, path.exc))
+    vcs = []
+    for i, (g, wnt) in enumerate(path.value):
+      if wrong:
+        wnt = wnt + 1
+      if FORMS[fname][1] == "tolerant" and fname != "zbl":
+        from symx import poly
+        ok, info = poly.tolerant_equal(g, wnt, 1e-9)
+        vcs.append(VC("entry%d~" % i, z3.BoolVal(bool(ok)), info=dict(key="section-entry")))
+      else:
+        vcs.append(VC("entry%d" % i, eq_formula(g, wnt), info=dict(key="section-entry")))
+    return vcs
+
+  def replay(v, w, path, structural):
     ref = spec.make(math.exp, math.sqrt)
     base = [1.3 + 0.4 * i for i in range(n)]
     if fname == "exponential":
@@ -245,11 +366,70 @@ def section_case(fname):
   return res
 
 
+def section_replay(fname):
+  """Concrete: pairs of entries of one form whose parameter lists differ in one value only (incl. values whose python hashes
+  collide); the two potentials are evaluated alternately at the same separations, in both orders."""
+  import io
+  import math
+  from atsim.potentials.config import ConfigParser
+  from atsim.potentials.config._potential_form_registry import Potential_Form_Registry
+  from atsim.potentials.config._modifier_registry import Modifier_Registry
+  from atsim.potentials.config._pair_potential_builder import Pair_Potential_Builder
+  n = len(FORMS[fname][0])
+  ref = spec.make(math.exp, math.sqrt)
+  base = [1.3 + 0.4 * i for i in range(n)]
+  if fname == "exponential":
+    base[1] = 2
+  bad = []
+  variants = []
+  for i in range(n):
+    for (a, b) in ((-1.0, -2.0), (-2.0, -1.0), (0.5, 0.75), (-1, -2)):
+      if fname == "exponential" and i == 1:
+        a, b = (-1, -2) if a < 0 else (2, 3)
+      if fname == "zbl" and a < 0:
+        continue
+      p1, p2 = list(base), list(base)
+      p1[i], p2[i] = a, b
+      variants.append((p1, p2))
+  for (p1, p2) in variants:
+    txt = "[Tabulation]\ntarget : LAMMPS\n[Pair]\nA-A : as.%s %s\nB-B : as.%s %s\n" % (fname, " ".join(map(repr, p1)), fname, " ".join(map(repr, p2)))
+    c2 = ConfigParser(io.StringIO(txt))
+    pots = Pair_Potential_Builder(c2, Potential_Form_Registry(c2, True, True), Modifier_Registry()).potentials
+    both = list(zip(pots, (p1, p2)))
+    for order in (both, both[::-1]):
+      for r in (0.9, 1.7, 2.6):
+        for pot, ps in order:
+          try:
+            wnt = ref[fname](r, *[float(x) if not (fname == "exponential" and ps.index(x) == 1) else x for x in ps])
+            got = pot.energy(r)
+          except (ZeroDivisionError, ValueError, OverflowError):
+            continue
+          if isinstance(got, complex) or isinstance(wnt, complex):
+            continue
+          if abs(got - wnt) > 1e-9 * max(1.0, abs(wnt)):
+            bad.append("%s-%s : as.%s %s evaluates to %r at r=%r, the documented formula gives %r (other entry, evaluated at the same r just before or after: %s)" % (
+              pot.speciesA, pot.speciesB, fname, " ".join(map(repr, ps)), got, r, wnt, " ".join(map(repr, p2 if ps is p1 else p1))))
+            break
+  return (bool(bad), "; ".join(bad[:2]) or "every entry follows its own parameters", dict(kind="section_entries", form=fname))
+
+
+def section_concrete_case(fname):
+  res = new_result("section entries of as.%s (concrete pairs, alternating evaluation)" % fname)
+  c, d, rec = section_replay(fname)
+  res["paths"] += 1
+  res["replays"] += 1
+  if c:
+    res["violations"].append(dict(key="section-entry-concrete", desc=d, record=rec))
+  return res
+
+
 def cases(tier, seed=0):
   cs = []
   for name, (params, kind) in sorted(FORMS.items()):
     if name != "tang_toennies" or tier == "thorough":
       cs.append(Case("section %s" % name, section_case, fname=name))
+    else:
+      cs.append(Case("section %s (concrete)" % name, section_concrete_case, fname=name))
     cs.append(Case("form %s" % name, form_case, fname=name, tolerant=(kind == "tolerant" and name != "zbl")))
   for order in range(0, 6 if tier == "quick" else 9):
     cs.append(Case("form polynomial order %d" % order, form_case, fname="polynomial", variant=order))
